@@ -14,7 +14,7 @@ def NOT_REPRODUCED(msg=''):
 
 
 from svgpathtools.polytools import polyroots01, polyroots
-roots = [0.001j, (0.001+0j), 0j, (0.001+0j)]
+roots = [0.001j, (1.0000033366666667+0j), (1.0000016683333333+0j), (0.9999949950500495+0j)]
 # complex roots must come in conjugate pairs for a real polynomial: add the conjugates
 full = []
 for z in roots:
@@ -25,7 +25,7 @@ out = polyroots01(p)
 reals = sorted(z.real for z in roots if z.imag == 0)
 for r in reals:
     if not (0 <= r <= 1): continue
-    if any(abs(r - o) < 0.001 for o in reals if o is not r): continue
+    if any(abs(r - o) < 0.001 for o in reals if o is not r and 0 <= o <= 1): continue
     n = sum(1 for o in out if abs(o - r) < 1e-6)
     if n != 1:
         REPRODUCED('polyroots01(np.poly(%r)) = %r: simple root %r occurs %d times' % (full, out, r, n))
@@ -39,7 +39,7 @@ finally:
     np.roots = _real_roots
 for r in reals:
     if not (0 <= r <= 1): continue
-    if any(abs(r - o) < 0.001 for o in reals if o is not r): continue
+    if any(abs(r - o) < 0.001 for o in reals if o is not r and 0 <= o <= 1): continue
     n = sum(1 for o in out if abs(o - r) < 1e-6)
     if n != 1:
         REPRODUCED('with np.roots returning %r (order injection) polyroots01 = %r: simple root %r occurs %d times' % (roots, out, r, n))
